@@ -87,6 +87,15 @@ func genPlan(t *rapid.T) Plan {
 	return p
 }
 
+func haveFile(files []ref.LTXName, min, max uint64) bool {
+	for _, f := range files {
+		if f.Min == min && f.Max == max {
+			return true
+		}
+	}
+	return false
+}
+
 // lineage is the chain of positions of the current primary's history.
 type lineage struct {
 	chain []ref.Pos
@@ -140,6 +149,7 @@ func runPlan(c *pbt.Case, p Plan) {
 	c.Labelf("mode:%s", p.Mode)
 	lin := &lineage{}
 	cursor := map[*cluster.CNode]int{} // transcript events already judged, per node
+	lastSnap := map[*cluster.CNode]uint64{} // MaxTXID of the last snapshot each node was sent
 
 	write := func(n *cluster.CNode, tx pager.WalTx, what string) {
 		wr, err := n.Write(dbName, tx)
@@ -178,6 +188,7 @@ func runPlan(c *pbt.Case, p Plan) {
 				if i >= cursor[n] {
 					c.Observe("offered-files", 1)
 					if h.IsSnapshot() {
+						lastSnap[n] = uint64(h.MaxTXID)
 						c.Label("snapshot-offered")
 						if !lin.has(announced) {
 							c.Label("snapshot-to-divergent-node")
@@ -253,9 +264,13 @@ func runPlan(c *pbt.Case, p Plan) {
 				if err != nil {
 					c.Failf("C06/bad-ltx-kept", "%s: node %s keeps %s which does not verify: %v", when, n.Name, f.Name, err)
 				}
-				fp := ref.Pos{TXID: uint64(lf.Header.MaxTXID), Checksum: uint64(lf.Trailer.PostApplyChecksum)}
-				if !lin.has(fp) {
-					c.Failf("C06/dead-fork-file-kept", "%s: node %s keeps %s (post position %s) which is not on the primary's history", when, n.Name, f.Name, fp)
+				// A received snapshot replaces the whole chain: nothing older than it may
+				// survive next to it. (A node that reached a position of the primary's
+				// history by its own route - two histories can meet again - legitimately
+				// keeps the files of that route; the chain monitor above vouches for them.)
+				// (only once the snapshot has really arrived: its file is in the directory)
+				if s := lastSnap[n]; s > 0 && haveFile(files, 1, s) && uint64(lf.Header.MaxTXID) <= s && !(lf.Header.MinTXID == 1 && uint64(lf.Header.MaxTXID) == s) {
+					c.Failf("C06/old-chain-kept-after-snapshot", "%s: node %s was sent a snapshot up to TXID %d and still keeps %s", when, n.Name, s, f.Name)
 				}
 			}
 		}
@@ -280,9 +295,14 @@ func runPlan(c *pbt.Case, p Plan) {
 		}
 
 		// ---- partition: the other candidate sees nothing of what follows ----
-		other.FC.Refuse(true)
-		other.FC.CutAll()
-		fork := cur.Pos(dbName)
+		other.FC.Isolate()
+		// whatever was already on its way has been applied by now: the fork point is
+		// where the isolated candidate really stands
+		time.Sleep(2 * time.Millisecond)
+		fork := other.Pos(dbName)
+		if !lin.has(fork) {
+			c.Failf("C06/harness", "%s: the isolated candidate is at %s, which the primary never committed", tag, fork)
+		}
 		for _, tx := range rd.AOnly {
 			write(cur, tx, tag+" unreplicated")
 		}
@@ -302,6 +322,9 @@ func runPlan(c *pbt.Case, p Plan) {
 
 		// ---- takeover: the former primary cannot reach the new one yet ----
 		cur.FC.Refuse(true)
+		if got := other.Pos(dbName); got != fork {
+			c.Failf("C06/harness", "%s: the isolated candidate moved from %s to %s", tag, fork, got)
+		}
 		if err := cl.MakePrimary(other, rd.Expiry, 20*time.Second); err != nil {
 			c.Failf("C06/liveness/no-primary", "%s: %v", tag, err)
 		}
